@@ -42,6 +42,8 @@ API (everything else in this file is private)
       distinct OS threads at once (real races; thorough tier).
       PoolController(eager=f): a call whose label satisfies f completes before
       `submit` returns (a worker faster than the submitting thread).
+      PoolController(handoff=f): after every runtime.map_value the just-submitted call may
+      complete (f(label)), i.e. between the chaining of a value and the caller's next statement.
   Loop specifics:   coroutine resolvers do `await ctl.gate(label)`; everything
       before the await runs when the coroutine is first scheduled, everything
       after it when the gate is completed. LoopController(True) keeps
@@ -164,12 +166,30 @@ class _ParkingExecutor(_CFExecutor):
         pass
 
 
+class _HandoffRuntime(ThreadPoolRuntime):
+    """ThreadPoolRuntime whose map_value gives the controller a chance to complete the call that
+    was just submitted *right after the value has been chained* (the worker finishing between
+    `map_value(...)` returning and the caller's next statement)"""
+
+    _ctl = None
+
+    def map_value(self, value, then, else_=None):
+        res = super().map_value(value, then, else_)
+        if self._ctl is not None:
+            self._ctl._handoff_point()
+        return res
+
+
 class PoolController(_Base):
-    def __init__(self, eager=None):
+    def __init__(self, eager=None, handoff=None):
         super().__init__()
         self.eager = eager  # label -> bool: run the call before submit returns (a fast worker)
+        self.handoff = handoff  # label -> bool: complete the call right after a map_value returned
+        self._last_park = None
         self._parked = []  # (label, future, fn, args, kwargs)
-        self.runtime = ThreadPoolRuntime(max_workers=1)
+        self.runtime = (_HandoffRuntime if handoff is not None else ThreadPoolRuntime)(max_workers=1)
+        if handoff is not None:
+            self.runtime._ctl = self
         self.runtime._inner.shutdown(wait=False)
         self.runtime._inner = _ParkingExecutor(self)
         self._futures = []
@@ -194,12 +214,23 @@ class PoolController(_Base):
         with self._lock:
             self._parked.append((label, fut, fn, args, kwargs))
             self.events.append(["invoke", label])
+            self._last_park = (label, len(self.events))
         if self.eager is not None and self.eager(label):
             self.complete(label)  # the worker was faster than the submitting thread
         return fut
 
     def defer(self, label, fn, /, *args, **kwargs):
         return self._park(label, fn, args, kwargs)
+
+    def _handoff_point(self):
+        """offered after every runtime.map_value: the most recently submitted call may complete
+        now, provided nothing else has happened since it was submitted (so that, for the model,
+        it is a call that finished before its submitter went on)"""
+        lp = self._last_park
+        if lp is None or lp[1] != len(self.events) or lp[0] not in self.parked():
+            return
+        if self.handoff(lp[0]):
+            self.complete(lp[0])
 
     # -- driving
     def start(self, thunk):
